@@ -20,6 +20,13 @@ structure interval_Interval where
   ClosedEnd : Bool
 deriving DecidableEq, Repr
 
+structure interval_IntervalListIntersectionState where
+  hasNil : Bool
+  start : Int
+  openStartList : List Int
+  result : List interval_Interval
+deriving DecidableEq, Repr
+
 structure rules_WeekMonth where
   WeekIndex : Int
   WeekDay : Int
@@ -107,6 +114,17 @@ def utils_WeekDayListIsValid (list : (List Int)) : Option Bool := do
   | some _v => pure _v
   | none =>
     pure true
+
+/-- utils/funcs.go:88 -/
+def utils_bisectLeftRange (a : (List Int)) (v : Int) (lo : Int) (hi : Int) : Option Int := do
+  let s ← (GoSem.sliceA a lo hi)
+  (SrcExt.sort_Search ((s).length : Int) (fun (i : Int) => (do
+      pure (decide ((← (GoSem.idx s i)) ≥ v))
+      : Option Bool)))
+
+/-- utils/funcs.go:95 -/
+def utils_BisectLeft (a : (List Int)) (v : Int) : Option Int := do
+  (utils_bisectLeftRange a v 0 ((a).length : Int))
 
 /-- hms.go:35 -/
 def lib_GetTotalSeconds (hms : GoSem.HMS) : Option Int := do
@@ -278,7 +296,7 @@ def interval_Extract (list : (List interval_Interval)) : Option (List Int) := do
     | GoSem.Flow.next extList =>
       pure extList
 
-/-- interval/interval.go:438 -/
+/-- interval/interval.go:463 -/
 def interval_IntervalListByNumList (nums : (List Int)) (minCount : Int) : Option (List interval_Interval) := do
   let list ← (GoSem.mkCap (α := interval_Interval) ((nums).length : Int))
   let tmpNums ← (GoSem.mkCap (α := Int) ((nums).length : Int))
@@ -330,11 +348,101 @@ def interval_IntervalListByNumList (nums : (List Int)) (minCount : Int) : Option
       )
     pure list
 
--- NOT TRANSLATED: interval_intersectionOfSomeIntervalLists_endPoint (): no such function in the package
+/-- interval/interval.go:368 -/
+def interval_intersectionOfSomeIntervalLists_endPoint (state : interval_IntervalListIntersectionState) (point : interval_IntervalPoint) : Option (Bool × interval_IntervalListIntersectionState) := do
+  let state := { state with hasNil := false }
+  let state := { state with start := (-9223372036854775808) }
+  let _r1 ← GoSem.forFold (ρ := Empty) (fun state _i tmpStart => do
+      let state ← (do
+        if (decide (tmpStart = (-9223372036854775808))) then
+          let state := { state with hasNil := true }
+          pure state
+        else
+          pure state
+        )
+      if (decide (tmpStart > (state).start)) then
+        let state := { state with start := tmpStart }
+        pure (GoSem.Flow.next state)
+      else
+        pure (GoSem.Flow.next state)
+    ) (state).openStartList 0 state
+  match _r1 with
+  | GoSem.Flow.ret _v => nomatch _v
+  | GoSem.Flow.next state =>
+    if (!(state).hasNil) then
+      if (decide ((state).start > (point).Pos)) then
+        pure (true, state)
+      else
+        let state ← (do
+          if ((decide ((point).Pos > (state).start)) || (point).Closed) then
+            let state := { state with result := ((state).result ++ [({ Start := (state).start, End := (point).Pos, ClosedEnd := (point).Closed } : interval_Interval)]) }
+            pure state
+          else
+            pure state
+          )
+        let state := { state with openStartList := (← GoSem.setA (state).openStartList (point).ListId (-9223372036854775808)) }
+        pure (false, state)
+    else
+      let state := { state with openStartList := (← GoSem.setA (state).openStartList (point).ListId (-9223372036854775808)) }
+      pure (false, state)
 
--- NOT TRANSLATED: interval_IntersectionOfSomeIntervalLists (interval/interval.go:385): call of github.com/ilius/libgostarcal/interval.latestOpenStart (not in the list of translated functions)
+/-- interval/interval.go:406 -/
+def interval_IntersectionOfSomeIntervalLists (lists : (List (List interval_Interval))) : Option (Option (List interval_Interval)) := do
+  let err := false
+  let listCount := ((lists).length : Int)
+  let intervalCount := (0 : Int)
+  let _r2 ← GoSem.forFold (ρ := (Option (List interval_Interval))) (fun (lists, err, intervalCount) listId list => do
+      let _t1 ← (interval_Normalize list)
+      let (list, err) := (match _t1 with | some _v => (_v, false) | none => (([] : (List interval_Interval)), true))
+      if err then
+        pure (GoSem.Flow.ret none)
+      else
+        let lists ← GoSem.setA lists listId list
+        let intervalCount := (intervalCount + ((list).length : Int))
+        pure (GoSem.Flow.next (lists, err, intervalCount))
+    ) lists 0 (lists, err, intervalCount)
+  match _r2 with
+  | GoSem.Flow.ret _v => pure _v
+  | GoSem.Flow.next (lists, err, intervalCount) =>
+    let points ← (GoSem.mkCap (α := interval_IntervalPoint) (2 * intervalCount))
+    let _r3 ← GoSem.forFold (ρ := Empty) (fun points listId_1 list_1 => do
+        let points := (points ++ (← (interval_GetPointList list_1 listId_1)))
+        pure (GoSem.Flow.next points)
+      ) lists 0 points
+    match _r3 with
+    | GoSem.Flow.ret _v => nomatch _v
+    | GoSem.Flow.next points =>
+      let points ← SrcExt.sortWith interval_Less points
+      let state := ({ openStartList := (← (GoSem.mkLen listCount 0)), result := (← (GoSem.mkCap (α := interval_Interval) intervalCount)), hasNil := false, start := 0 } : interval_IntervalListIntersectionState)
+      let _r4 ← GoSem.forCount (ρ := Empty) (fun state i => do
+          let state := { state with openStartList := (← GoSem.setA (state).openStartList i (-9223372036854775808)) }
+          pure (GoSem.Flow.next state)
+        ) 0 listCount state
+      match _r4 with
+      | GoSem.Flow.ret _v => nomatch _v
+      | GoSem.Flow.next state =>
+        let _r5 ← GoSem.forFold (ρ := (Option (List interval_Interval))) (fun state _i point => do
+            if (point).IsEnd then
+              let (err_1, state) ← (interval_intersectionOfSomeIntervalLists_endPoint state point)
+              if err_1 then
+                pure (GoSem.Flow.ret none)
+              else
+                pure (GoSem.Flow.next state)
+            else
+              if (decide ((← (GoSem.idx (state).openStartList (point).ListId)) ≠ (-9223372036854775808))) then
+                pure (GoSem.Flow.ret none)
+              else
+                let state := { state with openStartList := (← GoSem.setA (state).openStartList (point).ListId (point).Pos) }
+                pure (GoSem.Flow.next state)
+          ) points 0 state
+        match _r5 with
+        | GoSem.Flow.ret _v => pure _v
+        | GoSem.Flow.next state =>
+          pure (some (state).result)
 
--- NOT TRANSLATED: interval_Intersection (interval/interval.go:357): calls interval_IntersectionOfSomeIntervalLists, which is not translated
+/-- interval/interval.go:357 -/
+def interval_Intersection (list : (List interval_Interval)) (list2 : (List interval_Interval)) : Option (Option (List interval_Interval)) := do
+  (interval_IntersectionOfSomeIntervalLists [list, list2])
 
 /-- event/rules_lib/18_weekMonth.go:46 -/
 def rules_WeekMonth_IsValid (wm : rules_WeekMonth) : Option Bool := do
@@ -409,7 +517,7 @@ def jalali_IsLeap (alg2820 : Bool) (year : Int) : Option Bool := do
 
 /-- cal_types/jalali/jalali.go:163 -/
 def jalali_getMonthDayFromYdays (yday : Int) : Option (Int × Int) := do
-  let month := (GoSem.u8 (← (SrcExt.utils_BisectLeft jalali_monthLenSum yday)))
+  let month := (GoSem.u8 (← (utils_BisectLeft jalali_monthLenSum yday)))
   let day := (GoSem.u8 (yday - (← (GoSem.idx jalali_monthLenSum (GoSem.u8 (month - 1))))))
   pure (month, day)
 
@@ -799,6 +907,17 @@ def utils_WeekDayListIsValid_chk (list : (List Int)) : Option Bool := do
   | none =>
     pure true
 
+/-- utils/funcs.go:88 -/
+def utils_bisectLeftRange_chk (a : (List Int)) (v : Int) (lo : Int) (hi : Int) : Option Int := do
+  let s ← (GoSem.sliceA a lo hi)
+  (SrcExt.sort_Search ((s).length : Int) (fun (i : Int) => (do
+      pure (decide ((← (GoSem.idx s i)) ≥ v))
+      : Option Bool)))
+
+/-- utils/funcs.go:95 -/
+def utils_BisectLeft_chk (a : (List Int)) (v : Int) : Option Int := do
+  (utils_bisectLeftRange_chk a v 0 ((a).length : Int))
+
 /-- hms.go:35 -/
 def lib_GetTotalSeconds_chk (hms : GoSem.HMS) : Option Int := do
   (GoSem.chk64 ((← (GoSem.chk64 ((← (GoSem.chk64 ((hms).Hour * 3600))) + (← (GoSem.chk64 ((hms).Minute * 60)))))) + (hms).Second))
@@ -969,7 +1088,7 @@ def interval_Extract_chk (list : (List interval_Interval)) : Option (List Int) :
     | GoSem.Flow.next extList =>
       pure extList
 
-/-- interval/interval.go:438 -/
+/-- interval/interval.go:463 -/
 def interval_IntervalListByNumList_chk (nums : (List Int)) (minCount : Int) : Option (List interval_Interval) := do
   let list ← (GoSem.mkCap (α := interval_Interval) ((nums).length : Int))
   let tmpNums ← (GoSem.mkCap (α := Int) ((nums).length : Int))
@@ -1020,6 +1139,102 @@ def interval_IntervalListByNumList_chk (nums : (List Int)) (minCount : Int) : Op
         pure list
       )
     pure list
+
+/-- interval/interval.go:368 -/
+def interval_intersectionOfSomeIntervalLists_endPoint_chk (state : interval_IntervalListIntersectionState) (point : interval_IntervalPoint) : Option (Bool × interval_IntervalListIntersectionState) := do
+  let state := { state with hasNil := false }
+  let state := { state with start := (-9223372036854775808) }
+  let _r1 ← GoSem.forFold (ρ := Empty) (fun state _i tmpStart => do
+      let state ← (do
+        if (decide (tmpStart = (-9223372036854775808))) then
+          let state := { state with hasNil := true }
+          pure state
+        else
+          pure state
+        )
+      if (decide (tmpStart > (state).start)) then
+        let state := { state with start := tmpStart }
+        pure (GoSem.Flow.next state)
+      else
+        pure (GoSem.Flow.next state)
+    ) (state).openStartList 0 state
+  match _r1 with
+  | GoSem.Flow.ret _v => nomatch _v
+  | GoSem.Flow.next state =>
+    if (!(state).hasNil) then
+      if (decide ((state).start > (point).Pos)) then
+        pure (true, state)
+      else
+        let state ← (do
+          if ((decide ((point).Pos > (state).start)) || (point).Closed) then
+            let state := { state with result := ((state).result ++ [({ Start := (state).start, End := (point).Pos, ClosedEnd := (point).Closed } : interval_Interval)]) }
+            pure state
+          else
+            pure state
+          )
+        let state := { state with openStartList := (← GoSem.setA (state).openStartList (point).ListId (-9223372036854775808)) }
+        pure (false, state)
+    else
+      let state := { state with openStartList := (← GoSem.setA (state).openStartList (point).ListId (-9223372036854775808)) }
+      pure (false, state)
+
+/-- interval/interval.go:406 -/
+def interval_IntersectionOfSomeIntervalLists_chk (lists : (List (List interval_Interval))) : Option (Option (List interval_Interval)) := do
+  let err := false
+  let listCount := ((lists).length : Int)
+  let intervalCount := (0 : Int)
+  let _r2 ← GoSem.forFold (ρ := (Option (List interval_Interval))) (fun (lists, err, intervalCount) listId list => do
+      let _t1 ← (interval_Normalize_chk list)
+      let (list, err) := (match _t1 with | some _v => (_v, false) | none => (([] : (List interval_Interval)), true))
+      if err then
+        pure (GoSem.Flow.ret none)
+      else
+        let lists ← GoSem.setA lists listId list
+        let intervalCount ← (GoSem.chk64 (intervalCount + ((list).length : Int)))
+        pure (GoSem.Flow.next (lists, err, intervalCount))
+    ) lists 0 (lists, err, intervalCount)
+  match _r2 with
+  | GoSem.Flow.ret _v => pure _v
+  | GoSem.Flow.next (lists, err, intervalCount) =>
+    let points ← (GoSem.mkCap (α := interval_IntervalPoint) (← (GoSem.chk64 (2 * intervalCount))))
+    let _r3 ← GoSem.forFold (ρ := Empty) (fun points listId_1 list_1 => do
+        let points := (points ++ (← (interval_GetPointList_chk list_1 listId_1)))
+        pure (GoSem.Flow.next points)
+      ) lists 0 points
+    match _r3 with
+    | GoSem.Flow.ret _v => nomatch _v
+    | GoSem.Flow.next points =>
+      let points ← SrcExt.sortWith interval_Less points
+      let state := ({ openStartList := (← (GoSem.mkLen listCount 0)), result := (← (GoSem.mkCap (α := interval_Interval) intervalCount)), hasNil := false, start := 0 } : interval_IntervalListIntersectionState)
+      let _r4 ← GoSem.forCount (ρ := Empty) (fun state i => do
+          let state := { state with openStartList := (← GoSem.setA (state).openStartList i (-9223372036854775808)) }
+          pure (GoSem.Flow.next state)
+        ) 0 listCount state
+      match _r4 with
+      | GoSem.Flow.ret _v => nomatch _v
+      | GoSem.Flow.next state =>
+        let _r5 ← GoSem.forFold (ρ := (Option (List interval_Interval))) (fun state _i point => do
+            if (point).IsEnd then
+              let (err_1, state) ← (interval_intersectionOfSomeIntervalLists_endPoint_chk state point)
+              if err_1 then
+                pure (GoSem.Flow.ret none)
+              else
+                pure (GoSem.Flow.next state)
+            else
+              if (decide ((← (GoSem.idx (state).openStartList (point).ListId)) ≠ (-9223372036854775808))) then
+                pure (GoSem.Flow.ret none)
+              else
+                let state := { state with openStartList := (← GoSem.setA (state).openStartList (point).ListId (point).Pos) }
+                pure (GoSem.Flow.next state)
+          ) points 0 state
+        match _r5 with
+        | GoSem.Flow.ret _v => pure _v
+        | GoSem.Flow.next state =>
+          pure (some (state).result)
+
+/-- interval/interval.go:357 -/
+def interval_Intersection_chk (list : (List interval_Interval)) (list2 : (List interval_Interval)) : Option (Option (List interval_Interval)) := do
+  (interval_IntersectionOfSomeIntervalLists_chk [list, list2])
 
 /-- event/rules_lib/18_weekMonth.go:46 -/
 def rules_WeekMonth_IsValid_chk (wm : rules_WeekMonth) : Option Bool := do
@@ -1094,7 +1309,7 @@ def jalali_IsLeap_chk (alg2820 : Bool) (year : Int) : Option Bool := do
 
 /-- cal_types/jalali/jalali.go:163 -/
 def jalali_getMonthDayFromYdays_chk (yday : Int) : Option (Int × Int) := do
-  let month := (GoSem.u8 (← (SrcExt.utils_BisectLeft jalali_monthLenSum yday)))
+  let month := (GoSem.u8 (← (utils_BisectLeft_chk jalali_monthLenSum yday)))
   let day := (GoSem.u8 (← (GoSem.chk64 (yday - (← (GoSem.idx jalali_monthLenSum (GoSem.u8 (month - 1))))))))
   pure (month, day)
 
@@ -1407,6 +1622,6 @@ def hijri_GetMonthLen_chk (year : Int) (month : Int) : Option Int := do
       pure 29
 
 /-- the functions translated on this run -/
-def translated : List String := ["utils_Mod", "utils_Div", "utils_Divmod", "utils_IntMin", "utils_GetHmsBySeconds", "utils_MonthListIsValid", "utils_DayListIsValid", "utils_WeekDayListIsValid", "lib_GetTotalSeconds", "lib_GetFloatHour", "lib_FloatHourToHMS", "lib_toUint8", "lib_HMS_IsValid", "lib_Date_IsValid", "interval_Less", "interval_GetPointList", "interval_GetIntervalList", "interval_Normalize", "interval_Humanize", "interval_Extract", "interval_IntervalListByNumList", "stack_Push", "stack_Pop", "rules_WeekMonth_IsValid", "julian_IsLeap", "julian_getYearDays", "julian_getMonthDayFromYdays", "julian_ToJd", "julian_JdTo", "julian_GetMonthLen", "jalali_IsLeap", "jalali_getMonthDayFromYdays", "jalali_ToJd", "jalali_JdTo", "jalali_GetMonthLen", "ethiopian_IsLeap", "ethiopian_ToJd", "ethiopian_JdTo", "ethiopian_GetMonthLen", "gprol_IsLeap", "gprol_ToJd", "gprol_JdTo", "gprol_GetMonthLen", "indian_IsLeap", "indian_ToJd", "indian_JdTo", "indian_GetMonthLen", "hijri_IsLeap", "hijri_ToJd", "hijri_JdTo", "hijri_GetMonthLen"]
+def translated : List String := ["utils_Mod", "utils_Div", "utils_Divmod", "utils_IntMin", "utils_GetHmsBySeconds", "utils_MonthListIsValid", "utils_DayListIsValid", "utils_WeekDayListIsValid", "utils_bisectLeftRange", "utils_BisectLeft", "lib_GetTotalSeconds", "lib_GetFloatHour", "lib_FloatHourToHMS", "lib_toUint8", "lib_HMS_IsValid", "lib_Date_IsValid", "interval_Less", "interval_GetPointList", "interval_GetIntervalList", "interval_Normalize", "interval_Humanize", "interval_Extract", "interval_IntervalListByNumList", "interval_intersectionOfSomeIntervalLists_endPoint", "interval_IntersectionOfSomeIntervalLists", "interval_Intersection", "stack_Push", "stack_Pop", "rules_WeekMonth_IsValid", "julian_IsLeap", "julian_getYearDays", "julian_getMonthDayFromYdays", "julian_ToJd", "julian_JdTo", "julian_GetMonthLen", "jalali_IsLeap", "jalali_getMonthDayFromYdays", "jalali_ToJd", "jalali_JdTo", "jalali_GetMonthLen", "ethiopian_IsLeap", "ethiopian_ToJd", "ethiopian_JdTo", "ethiopian_GetMonthLen", "gprol_IsLeap", "gprol_ToJd", "gprol_JdTo", "gprol_GetMonthLen", "indian_IsLeap", "indian_ToJd", "indian_JdTo", "indian_GetMonthLen", "hijri_IsLeap", "hijri_ToJd", "hijri_JdTo", "hijri_GetMonthLen"]
 
 end Starcal.Gen.Src
